@@ -268,6 +268,9 @@ def menu():
     m["crawlB"] = Participant("crawlB", lambda t: t.index_batch_crawl_iter({Az: [Ab, Pn], P1: [Az], LONG: [P2]}, 1))
     m["crawlC"] = Participant("crawlC", lambda t: t.index_batch_crawl_iter({Axy: [Ax + b"p:k|", Ab], Sx: [Axy]}, 1))
     m["crawlD"] = Participant("crawlD", lambda t: t.index_batch_crawl_iter({Ab: [P1, Az], Az: [P2], P2: [Ab + b"p:3|"]}, 1))
+    # sizes: one page cited by 600 sources in one batch, while another batch touches that page
+    m["crawlBig"] = Participant("crawlBig", lambda t: t.index_batch_crawl_iter({Az + b"p:%03d|" % i: [Ab] for i in range(600)}, 1))
+    m["crawlT"] = Participant("crawlT", lambda t: t.index_batch_crawl_iter({Ab: [Ab + b"p:new|", Az], Az: [Ab]}, 1))
     m["rule"] = Participant("rule", lambda t: t.add_webentity_creation_rule_iter(A, R["path1"]))
     m["rule2"] = Participant("rule2", lambda t: t.add_webentity_creation_rule_iter(Ab, R["path2"]))
     # plain requests interleaved at the yield points of the generators (one step each)
@@ -333,6 +336,8 @@ def combos(tier):
         (("pages1", "child1"), 2, 3),
         (("netslow", "outl2"), 2, 3),
         # a plain request landing at every yield point of a generator
+        (("crawlBig", "crawlT"), U, U),
+        (("crawlBig", "linksX"), U, U),
         (("crawlA", "linksX"), U, U),
         (("crawlB", "linksX"), U, U),
         (("crawlA", "pageX"), U, U),
